@@ -188,6 +188,7 @@ type modelRun struct {
 	subs    []*collector
 	subName []string
 	pool    []string
+	ints    []int64 // integers earlier calls returned (counts, indexes)
 	log     []string
 	seen    map[string]bool // classes already reported for this run
 }
@@ -436,7 +437,10 @@ func (mr *modelRun) step(i int) {
 			args = append(args, reflect.ValueOf(f).Convert(pt))
 			desc = append(desc, fmt.Sprint(f))
 		default:
-			n := g.r.Intn(4)
+			n := int64(g.r.Intn(4))
+			if !pt.Implements(enumType) && len(mr.ints) > 0 && g.r.Chance(50) {
+				n = mr.ints[g.r.Intn(len(mr.ints))] - int64(g.r.Intn(2))
+			}
 			args = append(args, reflect.ValueOf(n).Convert(pt))
 			desc = append(desc, fmt.Sprint(n))
 		}
@@ -487,6 +491,12 @@ func (mr *modelRun) step(i int) {
 			}()
 			mr.subs = append(mr.subs, c)
 			mr.subName = append(mr.subName, fmt.Sprintf("%s subscription %s", callTag(i), full))
+			continue
+		}
+		if r.Kind() >= reflect.Int && r.Kind() <= reflect.Int64 && !r.Type().Implements(enumType) {
+			if len(mr.ints) < 8 {
+				mr.ints = append(mr.ints, r.Int())
+			}
 			continue
 		}
 		if r.Type() == errorType {
